@@ -156,7 +156,7 @@ for w, P, nm in ((False, ["C02"], "own"), (True, ["C04"], "unw")):
         unwind="max(N,M)+2", fn="PartialEq::eq for Map", shape="S_tok")
     for i, op in enumerate(("or_insert", "or_insert_with", "or_insert_with_key", "and_modify_or_insert",
                             "remove_or_into_key", "insert", "remove_entry")):
-        add("%s_entry_%s" % (nm, op), "life::h_entry::<{N}>(%d, %s)" % (i, ws), P, N_(1, 2), N_(1, 2, 3), fn="Map::entry / Entry::" + op, shape="S_tok")
+        add("%s_entry_%s" % (nm, op), "life::h_entry::<{N}>(%d, %s)" % (i, ws), P + (["C11"] if not w else []), N_(1, 2), N_(1, 2, 3), fn="Map::entry / Entry::" + op, shape="S_tok")
     for i, op in enumerate(("insert", "replace", "remove", "take", "retain", "clear", "contains_get", "drain", "clone")):
         add("%s_set_%s" % (nm, op), "life::h_set::<{N}>(%d, %s)" % (i, ws), P, N_(1, 2) if i < 2 else Q3, N_(1, 2, 3) if i < 2 else T3,
             fn="Set::" + op, shape="S_tok (sets)", needs=["hook:clone-local"] if (w and op == "clone") else [])
@@ -172,7 +172,7 @@ for sh, K, V in (("u8", "u8", "u8"), ("id", "Key", "u8"), ("zst", "()", "()")):
                             "entry_or_default", "vacant_insert")):
         ns_q = N_(0) if sh == "zst" else (N_(0, 1, 2) if i < 2 else N_(0, 2))
         ns_t = N_(0) if sh == "zst" else T3
-        add("c03_full_%s_%s" % (op, sh), "c03::h_full_map::<%s, %s, {N}>(%d)" % (K, V, i), ["C03"] + (["C01"] if i < 2 and sh == "u8" else []), ns_q, ns_t, profile="both",
+        add("c03_full_%s_%s" % (op, sh), "c03::h_full_map::<%s, %s, {N}>(%d)" % (K, V, i), ["C03"] + (["C01"] if i < 2 and sh == "u8" else []) + (["C11"] if i >= 2 and sh == "u8" else []), ns_q, ns_t, profile="both",
             expect=PANIC(*FULL_PANIC), fn="Map::" + op.replace("entry_", "entry(..).").replace("vacant_insert", "VacantEntry::insert") + " on a full map (must panic)", shape="S_" + sh)
     if sh != "zst":
         for i, op in enumerate(("insert", "insert_key_value", "checked_insert", "entry_or_insert")):
@@ -206,11 +206,11 @@ for sh, T in (("u8", "u8"), ("id", "Key")):
     add("c07_retain_" + sh, "c07::h_set_retain::<%s, {N}>()" % T, ["C07", "C05"], Q3, T3, fn="Set::retain", shape=S)
     add("c07_clear_" + sh, "c07::h_set_clear_drain::<%s, {N}>(false)" % T, ["C07"], Q3, T3, fn="Set::clear", shape=S)
     add("c07_drain_" + sh, "c07::h_set_clear_drain::<%s, {N}>(true)" % T, ["C07", "C10"], Q3, T3, profile="both", fn="Set::drain, SetDrain::next/len", shape=S)
-    add("c07_extend_lazy_" + sh, "c07::h_set_extend::<%s, {N}, {L}>(2)" % T, ["C07", "C16"], [{"N": 2, "L": 2}], [{"N": 2, "L": 3}, {"N": 3, "L": 3}],
+    add("c07_extend_lazy_" + sh, "c07::h_set_extend::<%s, {N}, {L}>(2)" % T, ["C07", "C16", "C05"], [{"N": 2, "L": 2}], [{"N": 2, "L": 3}, {"N": 3, "L": 3}],
         unwind="max(N,L)+2", fn="Extend<T>::extend for Set from an iterator without a size hint", shape=S)
-    add("c07_extend_" + sh, "c07::h_set_extend::<%s, {N}, {L}>(0)" % T, ["C07", "C16"], [{"N": 1, "L": 2}, {"N": 2, "L": 2}], [{"N": 2, "L": 3}, {"N": 3, "L": 3}],
+    add("c07_extend_" + sh, "c07::h_set_extend::<%s, {N}, {L}>(0)" % T, ["C07", "C16", "C05"], [{"N": 1, "L": 2}, {"N": 2, "L": 2}], [{"N": 2, "L": 3}, {"N": 3, "L": 3}],
         unwind="max(N,L)+2", fn="Extend<T>::extend for Set", shape=S)
-    add("c07_extend_ref_" + sh, "c07::h_set_extend::<%s, {N}, {L}>(1)" % T, ["C07", "C16"], [{"N": 2, "L": 2}], [{"N": 2, "L": 3}, {"N": 3, "L": 3}],
+    add("c07_extend_ref_" + sh, "c07::h_set_extend::<%s, {N}, {L}>(1)" % T, ["C07", "C16", "C05"], [{"N": 2, "L": 2}], [{"N": 2, "L": 3}, {"N": 3, "L": 3}],
         unwind="max(N,L)+2", fn="Extend<&T>::extend for Set", shape=S)
 
 # ------------------------------------------------------------------ C09 borrowing iterators, C05 observations
@@ -260,11 +260,11 @@ for sh, K, V in (("u8", "u8", "u8"), ("id", "Key", "u8")):
 # ------------------------------------------------------------------ C16 bulk construction
 for sh, K, V in (("u8", "u8", "u8"), ("id", "Key", "u8")):
     S = "S_" + sh
-    add("c16_from_iter_" + sh, "c16::h_from_iter::<%s, %s, {N}, {L}>(0)" % (K, V), ["C16"], [{"N": 1, "L": 2}, {"N": 2, "L": 3}] if sh == "u8" else [{"N": 2, "L": 3}],
+    add("c16_from_iter_" + sh, "c16::h_from_iter::<%s, %s, {N}, {L}>(0)" % (K, V), ["C16", "C05"], [{"N": 1, "L": 2}, {"N": 2, "L": 3}] if sh == "u8" else [{"N": 2, "L": 3}],
         [{"N": 2, "L": 4}, {"N": 3, "L": 4}, {"N": 3, "L": 5}] if sh == "u8" else [{"N": 2, "L": 4}, {"N": 3, "L": 4}], unwind="max(N,L)+2", fn="FromIterator::from_iter for Map", shape=S)
     add("c16_collect_" + sh, "c16::h_from_iter::<%s, %s, {N}, {L}>(1)" % (K, V), ["C16"], [{"N": 2, "L": 3}], [{"N": 3, "L": 4}], unwind="max(N,L)+2", fn="Iterator::collect into Map", shape=S)
     add("c16_from_array_" + sh, "c16::h_from_array::<%s, %s, {N}>()" % (K, V), ["C16"], Q3, T3, fn="From<[(K,V);N]> for Map", shape=S)
-    add("c16_set_from_iter_" + sh, "c16::h_set_from::<%s, {N}, {L}>(0)" % K, ["C16"], [{"N": 2, "L": 3}], [{"N": 2, "L": 4}, {"N": 3, "L": 4}], unwind="max(N,L)+2", fn="FromIterator::from_iter for Set", shape=S)
+    add("c16_set_from_iter_" + sh, "c16::h_set_from::<%s, {N}, {L}>(0)" % K, ["C16", "C05"], [{"N": 2, "L": 3}], [{"N": 2, "L": 4}, {"N": 3, "L": 4}], unwind="max(N,L)+2", fn="FromIterator::from_iter for Set", shape=S)
     add("c16_set_collect_" + sh, "c16::h_set_from::<%s, {N}, {L}>(1)" % K, ["C16"], [{"N": 2, "L": 3}], [{"N": 3, "L": 4}], unwind="max(N,L)+2", fn="Iterator::collect into Set", shape=S)
     add("c16_set_from_array_" + sh, "c16::h_set_from_array::<%s, {N}>()" % K, ["C16"], Q3, T3, fn="From<[T;N]> for Set", shape=S)
 
